@@ -407,6 +407,9 @@ impl FatVolume {
         D: BlockDevice,
         T: TimeSource,
     {
+        // The (up to two) directory blocks scanned before the current one, most
+        // recent first (see `delete_trailing_lfn`).
+        let mut previous_blocks: [Option<BlockIdx>; 2] = [None, None];
         match &self.fat_specific_info {
             FatSpecificInfo::Fat16(fat16_info) => {
                 // Root directories on FAT16 have a fixed size, because they use
@@ -436,30 +439,36 @@ impl FatVolume {
                         let block = block_cache
                             .read_mut(block_idx)
                             .map_err(Error::DeviceError)?;
-                        for (i, dir_entry_bytes) in block
-                            .chunks_exact_mut(OnDiskDirEntry::LEN)
+                        // 0x00 or 0xE5 represents a free entry
+                        let free_slot = block
+                            .chunks_exact(OnDiskDirEntry::LEN)
                             .take(slots)
-                            .enumerate()
-                        {
-                            let dir_entry = OnDiskDirEntry::new(dir_entry_bytes);
-                            // 0x00 or 0xE5 represents a free entry
-                            if !dir_entry.is_valid() {
-                                let ctime = time_source.get_timestamp();
-                                let entry = DirEntry::new(
-                                    name,
-                                    attributes,
-                                    first_cluster,
-                                    ctime,
-                                    block_idx,
-                                    (i * OnDiskDirEntry::LEN) as u32,
-                                );
-                                dir_entry_bytes
-                                    .copy_from_slice(&entry.serialize(FatType::Fat16)[..]);
-                                trace!("Updating directory");
-                                block_cache.write_back()?;
-                                return Ok(entry);
+                            .position(|bytes| !OnDiskDirEntry::new(bytes).is_valid());
+                        if let Some(i) = free_slot {
+                            let ctime = time_source.get_timestamp();
+                            let entry = DirEntry::new(
+                                name,
+                                attributes,
+                                first_cluster,
+                                ctime,
+                                block_idx,
+                                (i * OnDiskDirEntry::LEN) as u32,
+                            );
+                            let start = i * OnDiskDirEntry::LEN;
+                            block[start..start + OnDiskDirEntry::LEN]
+                                .copy_from_slice(&entry.serialize(FatType::Fat16)[..]);
+                            // Long-name fragments left in front of a free slot (by
+                            // a driver that deletes only the short entry) would
+                            // become the new entry's long name: they go.
+                            let run_goes_on = Self::mark_lfn_run_deleted(block, i);
+                            trace!("Updating directory");
+                            block_cache.write_back()?;
+                            if run_goes_on {
+                                self.delete_trailing_lfn(block_cache, &previous_blocks)?;
                             }
+                            return Ok(entry);
                         }
+                        previous_blocks = [Some(block_idx), previous_blocks[0]];
                     }
                     if cluster != ClusterId::ROOT_DIR {
                         current_cluster = match self.next_cluster(block_cache, cluster) {
@@ -501,29 +510,35 @@ impl FatVolume {
                             .read_mut(block_idx)
                             .map_err(Error::DeviceError)?;
                         // Are any entries in the block we just loaded blank? If so
-                        // we can use them.
-                        for (i, dir_entry_bytes) in
-                            block.chunks_exact_mut(OnDiskDirEntry::LEN).enumerate()
-                        {
-                            let dir_entry = OnDiskDirEntry::new(dir_entry_bytes);
-                            // 0x00 or 0xE5 represents a free entry
-                            if !dir_entry.is_valid() {
-                                let ctime = time_source.get_timestamp();
-                                let entry = DirEntry::new(
-                                    name,
-                                    attributes,
-                                    first_cluster,
-                                    ctime,
-                                    block_idx,
-                                    (i * OnDiskDirEntry::LEN) as u32,
-                                );
-                                dir_entry_bytes
-                                    .copy_from_slice(&entry.serialize(FatType::Fat32)[..]);
-                                trace!("Updating directory");
-                                block_cache.write_back()?;
-                                return Ok(entry);
+                        // we can use them. 0x00 or 0xE5 represents a free entry
+                        let free_slot = block
+                            .chunks_exact(OnDiskDirEntry::LEN)
+                            .position(|bytes| !OnDiskDirEntry::new(bytes).is_valid());
+                        if let Some(i) = free_slot {
+                            let ctime = time_source.get_timestamp();
+                            let entry = DirEntry::new(
+                                name,
+                                attributes,
+                                first_cluster,
+                                ctime,
+                                block_idx,
+                                (i * OnDiskDirEntry::LEN) as u32,
+                            );
+                            let start = i * OnDiskDirEntry::LEN;
+                            block[start..start + OnDiskDirEntry::LEN]
+                                .copy_from_slice(&entry.serialize(FatType::Fat32)[..]);
+                            // Long-name fragments left in front of a free slot (by
+                            // a driver that deletes only the short entry) would
+                            // become the new entry's long name: they go.
+                            let run_goes_on = Self::mark_lfn_run_deleted(block, i);
+                            trace!("Updating directory");
+                            block_cache.write_back()?;
+                            if run_goes_on {
+                                self.delete_trailing_lfn(block_cache, &previous_blocks)?;
                             }
+                            return Ok(entry);
                         }
+                        previous_blocks = [Some(block_idx), previous_blocks[0]];
                     }
                     // Well none of the blocks in that cluster had any space in
                     // them, let's fetch another one.
